@@ -1103,6 +1103,11 @@ class Interp:
                         dv = self.read(L, term[1])
                     except Exception:
                         dv = None
+                    if dv is None and term[1][0] == 'local' and self.prog.drop_types():
+                        # zero-sized guard (struct Guard;): MIR never writes its bytes, the declared type says what is dropped
+                        dty = norm_type(ltypes.get(term[1][1]) or '')
+                        if dty in self.prog.drop_types():
+                            dv = Struct(dty, [])
                     if type(dv) in (Struct, Enum) and dv.ty in self.prog.drop_types():
                         cell = [dv]
                         cands = self.prog.find_fn('drop', ['&' + dv.ty], 1, None, dv.ty, 'Drop')
